@@ -1356,10 +1356,22 @@ func (fx *FnExec) backEdge(li *loopInfo, st *State, p token.Pos) {
 
 // assumeType adds the range/shape facts implied by a Go type for a fresh value.
 func (fx *FnExec) assumeType(st *State, v *Term, t types.Type) {
-	if fromEntryHeap(v) && fx.entryAlloc != nil {
-		// read from a heap component nobody has written since the function was entered: the value
-		// existed at entry, so what it refers to lies below the entry allocation counter
-		fx.c.Assume(Implies(st.guard, fx.typeInv(v, t, fx.entryAlloc)))
+	if r := entryHeapRef(v); r != nil && fx.entryAlloc != nil {
+		// read from a heap component nobody has written since the function was entered, at an object
+		// that existed at entry: the value existed at entry, so what it refers to lies below the entry
+		// allocation counter (at objects allocated later -- by callees under contract -- the entry
+		// version of the component stands for their initial contents, and only the current counter bounds it)
+		for r.Op == "emb" {
+			r = r.Args[0]
+		}
+		cur := fx.heapGet(st, "alloc", SInt)
+		pre := fx.typeInv(v, t, fx.entryAlloc)
+		now := fx.typeInv(v, t, cur)
+		if same(pre, now) {
+			fx.c.Assume(Implies(st.guard, now))
+		} else {
+			fx.c.Assume(Implies(st.guard, And(now, Implies(Lt(r, fx.entryAlloc), pre))))
+		}
 		return
 	}
 	fx.c.Assume(Implies(st.guard, fx.typeInv(v, t, fx.heapGet(st, "alloc", SInt))))
@@ -2072,26 +2084,17 @@ func (fx *FnExec) strConcat(st *State, a, b *Term) *Term {
 }
 
 
-// fromEntryHeap: t is a read select(H0_..., r) (possibly of a struct assembled from such
-// reads) from heap components still in their entry version.
-func fromEntryHeap(t *Term) bool {
+// entryHeapRef: if t is a read select(H0_..., r) from a heap component still in its entry
+// version, the reference r that was read (nil otherwise).
+func entryHeapRef(t *Term) *Term {
 	if t == nil {
-		return false
+		return nil
 	}
 	if t.Op == "select" && len(t.Args) == 2 {
 		a := t.Args[0]
-		return len(a.Args) == 0 && strings.HasPrefix(a.Op, "H0_")
-	}
-	if isCtor(t.Op) && len(t.Args) > 0 {
-		for _, a := range t.Args {
-			if a.lit != nil {
-				continue
-			}
-			if !fromEntryHeap(a) {
-				return false
-			}
+		if len(a.Args) == 0 && strings.HasPrefix(a.Op, "H0_") {
+			return t.Args[1]
 		}
-		return true
 	}
-	return false
+	return nil
 }
